@@ -217,6 +217,29 @@ class Runner(object):
             kind = "foreign_commands" if extra else "missing_commands"
             return [Failure("%s|%s" % (kind, hist), "requested %r after %r: unexpected %r, missing %r" % (
                 requested, earlier, extra, missing))]
+        if requested and not dup and status == "ok" and all(r in libs for r in requested) and len(earlier) % 3 == 0:
+            # the command-line tool: its built-in set plus the same libraries through -l offers the same commands
+            from click.testing import CliRunner
+            from mpilot.cli.mpilot import main
+
+            cname = sorted(table)[len(earlier) % len(table)]
+            path = os.path.join(self.root, "cli_model.mpt")
+            with open(path, "w") as f:
+                f.write("R = %s()\n" % cname)
+            for which in ("eems-csv", "eems-netcdf"):
+                args = [which, path]
+                for r in requested:
+                    args += ["-l", r]
+                res = CliRunner().invoke(main, args)
+                rec.label("cli_with_libraries:" + which)
+                if res.exception is not None and not isinstance(res.exception, SystemExit):
+                    return [Failure("cli_traceback:%s|%s" % (type(res.exception).__name__, which), repr(res.exception))]
+                if res.exit_code != 0:
+                    try:
+                        stderr = res.stderr
+                    except Exception:
+                        stderr = res.output
+                    return [Failure("cli_missing_commands|%s" % which, "mpilot %s: exit %s, %r" % (" ".join(args[:1] + args[2:]), res.exit_code, stderr[-200:]))]
         if step[0] == "construct_fresh":
             out = subprocess.run([sys.executable, "-c", FRESH, self.root, json.dumps(requested)], capture_output=True,
                                  text=True, env=dict(os.environ), timeout=120)
